@@ -71,7 +71,11 @@ Point ==
        /\ e.wOk = 1
     /\ l' = l + 1 /\ UNCHANGED <<chain, lastOut>>
 
-Next == GridCase \/ RefStep \/ Default \/ Icdf \/ IcdfTop \/ Point
+\* inside a real run: after an iteration that sampled only zeros the checkpoint proposes the same grid again
+ZeroIter == /\ l <= TraceLen /\ LET e == TheTrace[l] IN e.e = "ZeroIter" /\ e.nz = 0 /\ e.nextId = e.usedId
+            /\ l' = l + 1 /\ UNCHANGED <<chain, lastOut>>
+
+Next == ZeroIter \/ GridCase \/ RefStep \/ Default \/ Icdf \/ IcdfTop \/ Point
 Spec == Init /\ [][Next]_vars
 TraceAccepted == TraceAcceptedBy(TraceLen)
 =============================================================================
